@@ -162,9 +162,11 @@ Monotone(src, d0, d1, roots) ==
   /\ NoCurSet(d0 \ T(d0, "Job")) \subseteq NoCurSet(d1)
   /\ \A r \in T(d0, "Tag") : r[7] = "0" => r \in d1
   /\ \A r \in T(d0, "Job") : r \in d1 \/ r[2] \in Closure(src, roots)
-  /\ \A r \in d1 \ d0 : \/ \E x \in Closure(src, roots) : r \in {AsNew(y) : y \in Owned(src, x)} \/ r[2] = x
-                        \/ r[1] = "Tag"        \* is_current flips
-                        \/ r[1] = "Subtree" /\ r[2] \in Closure(src, roots)
+  /\ \A r \in d1 \ d0 :
+       \/ r[1] = "Tag" /\ (\E q \in d0 : NoCur(q) = NoCur(r))                    \* is_current flipped
+       \/ \E x \in Closure(src, roots) : NoCur(r) \in NoCurSet(Owned(src, x))      \* a transferred row
+       \/ r[1] = "CallEdge" /\ r[2] \in Closure(src, roots)                        \* (re-ranked)
+       \/ r[1] = "Subtree" /\ r[2] \in Closure(src, roots)
 Idempotent(d1, d2, n2) == d2 = d1 /\ n2 = 0
 CountOK(src, d0, roots, n) == n = Cardinality(New(src, d0, roots))
 
@@ -181,9 +183,189 @@ ShallowHit(db, task, args, cur) ==
 (* SINGLE: an Evaluation row for the eval hash (task, args) whose value is present *)
 SingleHit(db, task, args) ==
   \E e \in T(db, "Eval") : e[3] = task /\ e[4] = args /\ Has(db, "Value", e[5])
-Hit(db, task, args, cur, shallow) ==
-  (shallow /\ ShallowHit(db, task, args, cur)) \/ SingleHit(db, task, args)
-(* the destination serves nothing that neither it (before) nor the source would serve *)
+(* The two lookups return different things (the final value of the whole subtree vs. the task's
+   own return value, whose expression is evaluated further), so they are compared separately: the
+   destination serves nothing that neither it (before) nor the source would serve by that lookup *)
 CacheSafeAt(src, d0, d1, task, args, cur, shallow) ==
-  Hit(d1, task, args, cur, shallow) => (Hit(d0, task, args, cur, shallow) \/ Hit(src, task, args, cur, shallow))
+  IF shallow
+  THEN ShallowHit(d1, task, args, cur) => (ShallowHit(d0, task, args, cur) \/ ShallowHit(src, task, args, cur))
+  ELSE SingleHit(d1, task, args) => (SingleHit(d0, task, args) \/ SingleHit(src, task, args))
+
+(***************************************************************************)
+(* A small world for TLC: two repositories, executions of two workflows   *)
+(* (possibly cut while the root job runs, and finished later), tag edits,  *)
+(* transfers of any non-empty set of executions in either direction.       *)
+(*                                                                         *)
+(*   w1: main1() -> f(v1) = File vf;  main1 returns [vf]   (Subvalue, File)*)
+(*   w2: main2() -> f(v1), g(x = <result of f>) = v2       (two ordered    *)
+(*       children, keyword argument, upstream link)                        *)
+(* Call nodes, values, tasks and tags are content addressed (same ids in   *)
+(* both repositories); executions and jobs get fresh ids.                  *)
+(***************************************************************************)
+CONSTANTS Deviations,   \* subset of {"ChildOrderUnspecified", "StaleJobRowKept", "SubtreeRowsNotTransferred"}
+          MaxExec, MaxTagOps, MaxXfer
+
+Repos == {"A", "B"}
+Other(R) == IF R = "A" THEN "B" ELSE "A"
+
+ValueRows(v) == {<<"Value", v, "int", "pickle", "d_" \o v>>}
+TaskRows(t) == {<<"Value", t, "redun.Task", "pickle", "d_" \o t>>, <<"Task", t, t, "ns", "s_" \o t>>}
+FileRows(v) == {<<"Value", v, "redun.File", "pickle", "d_" \o v>>, <<"File", v, "/p/" \o v>>}
+ListRows(v, subs) == {<<"Value", v, "list", "pickle", "d_" \o v>>} \cup {<<"Subvalue", v, u>> : u \in subs}
+
+(* content-addressed part of a finished run of workflow w *)
+Content(w) ==
+  LET f == {<<"CallNode", "c_f", "f", "t_f", "a1", "vf", "ts">>,
+            <<"Argument", "arg_f", "c_f", "v1", "0", NULL>>,
+            <<"Subtree", "c_f", "t_f">>, <<"Eval", "ev_f", "t_f", "a1", "vf">>}
+           \cup ValueRows("v1") \cup FileRows("vf") \cup TaskRows("t_f")
+  IN IF w = "w1"
+     THEN f \cup {<<"CallNode", "c_m1", "main1", "t_m1", "a0", "vl", "ts">>, <<"CallEdge", "c_m1", "c_f", "0">>,
+                  <<"Subtree", "c_m1", "t_m1">>, <<"Subtree", "c_m1", "t_f">>,
+                  <<"Eval", "ev_m1", "t_m1", "a0", "vl">>}
+            \cup ListRows("vl", {"vf"}) \cup TaskRows("t_m1")
+     ELSE f \cup {<<"CallNode", "c_m2", "main2", "t_m2", "a0", "v2", "ts">>,
+                  <<"CallNode", "c_g", "g", "t_g", "a2", "v2", "ts">>,
+                  <<"CallEdge", "c_m2", "c_f", "0">>, <<"CallEdge", "c_m2", "c_g", "1">>,
+                  <<"Argument", "arg_g", "c_g", "vf", NULL, "x">>, <<"ArgResult", "arg_g", "c_f">>,
+                  <<"Subtree", "c_m2", "t_m2">>, <<"Subtree", "c_m2", "t_f">>, <<"Subtree", "c_m2", "t_g">>,
+                  <<"Subtree", "c_g", "t_g">>,
+                  <<"Eval", "ev_m2", "t_m2", "a0", "v2">>, <<"Eval", "ev_g", "t_g", "a2", "v2">>}
+            \cup ValueRows("v2") \cup TaskRows("t_m2") \cup TaskRows("t_g")
+
+RootCall(w) == IF w = "w1" THEN "c_m1" ELSE "c_m2"
+RootTask(w) == IF w = "w1" THEN "t_m1" ELSE "t_m2"
+Kids(w) == IF w = "w1" THEN <<<<"t_f", "c_f">>>> ELSE <<<<"t_f", "c_f">>, <<"t_g", "c_g">>>>
+Bit(b) == IF b THEN "1" ELSE "0"
+EId(n) == "e" \o ToString(n)
+JId(n, k) == "j" \o ToString(n) \o "_" \o ToString(k)
+
+(* job rows of execution n (workflow w) in a repository that held `before`; a job is recorded
+   as cached when its call node was already there *)
+JobRows(n, w, before, done) ==
+  IF ~done THEN {<<"Job", JId(n, 0), "s", NULL, RootTask(w), "0", NULL, NULL, EId(n)>>}
+  ELSE {<<"Job", JId(n, 0), "s", "t", RootTask(w), Bit(Has(before, "CallNode", RootCall(w))), RootCall(w),
+          NULL, EId(n)>>}
+       \cup {<<"Job", JId(n, k), "s", "t", Kids(w)[k][1], Bit(Has(before, "CallNode", Kids(w)[k][2])),
+                Kids(w)[k][2], JId(n, 0), EId(n)>> : k \in 1..Len(Kids(w))}
+ExecRow(n) == <<"Execution", EId(n), "args", JId(n, 0)>>
+
+VARIABLES db,      \* [Repos -> set of rows]
+          pend,    \* executions cut while running: [repo, n, w]
+          nexec, ntag, nx,
+          last     \* ghost: the transfer just performed
+vars == <<db, pend, nexec, ntag, nx, last>>
+
+NoLast == [on |-> FALSE, S |-> "A", D |-> "B", src |-> {}, d0 |-> {}, roots |-> {}]
+Init == db = [R \in Repos |-> {}] /\ pend = {} /\ nexec = 0 /\ ntag = 0 /\ nx = 0 /\ last = NoLast
+
+Run(R, w, cut) ==
+  /\ nexec < MaxExec
+  /\ LET n == nexec + 1 IN
+       /\ db' = [db EXCEPT ![R] = @ \cup {ExecRow(n)} \cup JobRows(n, w, @, ~cut)
+                                     \cup (IF cut THEN {} ELSE Content(w))]
+       /\ pend' = IF cut THEN pend \cup {[repo |-> R, n |-> n, w |-> w]} ELSE pend
+       /\ nexec' = n
+  /\ last' = NoLast /\ UNCHANGED <<ntag, nx>>
+
+(* the cut execution completes: record_job_end rewrites the root job row *)
+Finish(p) ==
+  /\ p \in pend
+  /\ db' = [db EXCEPT ![p.repo] = (@ \ JobRows(p.n, p.w, {}, FALSE)) \cup JobRows(p.n, p.w, @, TRUE)
+                                       \cup Content(p.w)]
+  /\ pend' = pend \ {p}
+  /\ last' = NoLast /\ UNCHANGED <<nexec, ntag, nx>>
+
+ExecIds(d) == {r[2] : r \in T(d, "Execution")}
+Entities(d) == ExecIds(d) \cup ({"v1"} \cap PK(d))
+EType(x) == IF x = "v1" THEN "Value" ELSE "Execution"
+TagId(e, k, v, ps) == ToString(<<e, k, v, ps>>)
+CurTags(d, e) == {r[2] : r \in {x \in T(d, "Tag") : x[4] = e /\ x[5] = "k" /\ x[7] = "1"}}
+Supersede(d, ps) == {IF r[1] = "Tag" /\ r[2] \in ps THEN <<r[1], r[2], r[3], r[4], r[5], r[6], "0">> ELSE r : r \in d}
+
+(* record_tags: a new current tag (re-recording an existing tag changes nothing) *)
+TagAdd(R, e, v) ==
+  /\ ntag < MaxTagOps /\ e \in Entities(db[R])
+  /\ LET id == TagId(e, "k", v, {}) IN
+       /\ ~Has(db[R], "Tag", id)
+       /\ db' = [db EXCEPT ![R] = @ \cup {<<"Tag", id, EType(e), e, "k", v, "1">>}]
+  /\ ntag' = ntag + 1 /\ last' = NoLast /\ UNCHANGED <<pend, nexec, nx>>
+(* update_tags / record_tags(update=True): the current tags of the key become parents *)
+TagUpdate(R, e, v) ==
+  /\ ntag < MaxTagOps /\ e \in Entities(db[R])
+  /\ LET ps == CurTags(db[R], e)
+         id == TagId(e, "k", v, ps) IN
+       /\ ps # {} /\ ~Has(db[R], "Tag", id)
+       /\ db' = [db EXCEPT ![R] = Supersede(@, ps) \cup {<<"Tag", id, EType(e), e, "k", v, "1">>}
+                                     \cup {<<"TagEdit", q, id>> : q \in ps}]
+  /\ ntag' = ntag + 1 /\ last' = NoLast /\ UNCHANGED <<pend, nexec, nx>>
+(* delete_tags: a Null tag supersedes the current ones *)
+TagDelete(R, e) ==
+  /\ ntag < MaxTagOps /\ e \in Entities(db[R])
+  /\ LET ps == CurTags(db[R], e)
+         id == TagId("", "", "null", ps) IN
+       /\ ps # {} /\ ~Has(db[R], "Tag", id)
+       /\ db' = [db EXCEPT ![R] = Supersede(@, ps) \cup {<<"Tag", id, "Null", "", "", "null", "1">>}
+                                     \cup {<<"TagEdit", q, id>> : q \in ps}]
+  /\ ntag' = ntag + 1 /\ last' = NoLast /\ UNCHANGED <<pend, nexec, nx>>
+
+Dev(d) == d \in Deviations
+Reverse(d, P) ==    \* one member of the permutation family: reverse the children of the nodes in P
+  {IF r[1] = "CallEdge" /\ r[2] \in P
+     THEN <<r[1], r[2], r[3], ToString(Cardinality(EdgesOf(d, r[2])) - 1 - (CHOOSE i \in 0..9 : ToString(i) = r[4]))>>
+     ELSE r : r \in d}
+XferModel(src, dst, roots, flip) ==
+  LET C == Closure(src, roots) \cap PK(src)
+      newcalls == New(src, dst, roots) \cap {r[2] : r \in T(src, "CallNode")}
+      d1 == XferAsBuilt(src, dst, roots)
+      d2 == IF Dev("ChildOrderUnspecified") /\ flip THEN Reverse(d1, newcalls) ELSE d1
+      d3 == IF Dev("StaleJobRowKept") THEN d2
+            ELSE {r \in d2 : ~(r[1] = "Job" /\ r[2] \in C)} \cup {r \in T(src, "Job") : r[2] \in C}
+  IN IF Dev("SubtreeRowsNotTransferred") THEN d3 ELSE d3 \cup {r \in T(src, "Subtree") : r[2] \in C}
+
+Transfer(S, roots, flip) ==
+  /\ nx < MaxXfer /\ roots # {} /\ roots \subseteq ExecIds(db[S])
+  /\ (flip => Dev("ChildOrderUnspecified"))
+  /\ LET D == Other(S) IN
+       /\ db' = [db EXCEPT ![D] = XferModel(db[S], db[D], roots, flip)]
+       /\ last' = [on |-> TRUE, S |-> S, D |-> D, src |-> db[S], d0 |-> db[D], roots |-> roots]
+  /\ nx' = nx + 1 /\ UNCHANGED <<pend, nexec, ntag>>
+
+Next ==
+  \/ \E R \in Repos, w \in {"w1", "w2"}, cut \in BOOLEAN : Run(R, w, cut)
+  \/ \E p \in pend : Finish(p)
+  \/ \E R \in Repos : \E e \in Entities(db[R]) : \E v \in {"a", "b"} : TagAdd(R, e, v) \/ TagUpdate(R, e, v)
+  \/ \E R \in Repos : \E e \in Entities(db[R]) : TagDelete(R, e)
+  \/ \E S \in Repos : \E roots \in SUBSET ExecIds(db[S]) : \E flip \in BOOLEAN : Transfer(S, roots, flip)
+Spec == Init /\ [][Next]_vars
+
+(***************************************************************************)
+(* Properties: checked on the state right after a transfer.                *)
+(***************************************************************************)
+After == db[last.D]
+RowsFaithful == last.on => RowsKept(last.src, After, last.roots, OtherTables)
+JobsFaithful == last.on => RowsKept(last.src, After, last.roots, JobTables)
+ChildOrderFaithful == last.on => RowsKept(last.src, After, last.roots, EdgeTables)
+ChildSetsFaithful == last.on => ChildSetsKept(last.src, After, last.roots)
+TagsFaithful == last.on => TagStatusKept(last.src, last.d0, After, last.roots)
+NothingLost == last.on => Monotone(last.src, last.d0, After, last.roots)
+(* repeating the transfer adds nothing (whatever order the serialiser picks) *)
+TwiceAddsNothing ==
+  last.on => /\ New(last.src, After, last.roots) = {}
+             /\ \A flip \in BOOLEAN : XferModel(last.src, After, last.roots, flip) = After
+AllTasks == {"t_f", "t_g", "t_m1", "t_m2"}
+Calls(d) == {<<c[4], c[5]>> : c \in T(d, "CallNode")}
+CacheSafe ==
+  last.on => \A q \in Calls(last.src) \cup Calls(last.d0), cur \in SUBSET AllTasks, sh \in BOOLEAN :
+                CacheSafeAt(last.src, last.d0, After, q[1], q[2], cur, sh)
+(* the as-built operator is what the machine does, up to child order *)
+AsBuiltAgrees ==
+  (last.on /\ Deviations = {"ChildOrderUnspecified", "StaleJobRowKept", "SubtreeRowsNotTransferred"}) =>
+     SameUpToChildOrder(After, XferAsBuilt(last.src, last.d0, last.roots),
+                        New(last.src, last.d0, last.roots))
+IdealAgrees == (last.on /\ Deviations = {}) => After = XferIdeal(last.src, last.d0, last.roots)
+TypeOK == \A R \in Repos : \A r \in db[R] : r[1] \in PKTables \cup {"CallEdge", "Argument", "ArgResult",
+             "Subvalue", "File", "Task", "TagEdit", "Subtree", "Eval"}
+(* tags: is_current <=> no child edit, in every repository at every time (what Post re-establishes) *)
+TagLeafInv == \A R \in Repos : \A t \in T(db[R], "Tag") : (t[7] = "1") <=> EditKids(db[R], t[2]) = {}
 =============================================================================
